@@ -2,6 +2,7 @@ package props
 
 import (
 	"bytes"
+	"errors"
 	"fmt"
 	"os"
 	"os/exec"
@@ -54,6 +55,10 @@ func (o c06Op) String() string {
 		return fmt.Sprintf("Convert(doc%d)", o.arg)
 	case 'P':
 		return fmt.Sprintf("Parse(doc%d)", o.arg)
+	case 'F':
+		return fmt.Sprintf("Convert(doc%d) into a writer that refuses every byte", o.arg)
+	case 'G':
+		return fmt.Sprintf("Convert(doc%d) into a writer that fails after 7 bytes", o.arg)
 	}
 	return fmt.Sprintf("Render(tree%d)", o.arg)
 }
@@ -69,7 +74,24 @@ func c06Ops(ndocs int) []c06Op {
 	for i := 0; i < 3; i++ {
 		ops = append(ops, c06Op{'R', i})
 	}
+	// failed conversions belong to an instance's history too: Convert into a writer that refuses every byte ('F') and
+	// into one that fails after 7 bytes ('G'), for the first documents
+	for d := 0; d < ndocs && d < 6; d++ {
+		ops = append(ops, c06Op{'F', d}, c06Op{'G', d})
+	}
 	return ops
+}
+
+type c06FailWriter struct{ left int }
+
+func (w *c06FailWriter) Write(p []byte) (int, error) {
+	if len(p) <= w.left {
+		w.left -= len(p)
+		return len(p), nil
+	}
+	n := w.left
+	w.left = 0
+	return n, errors.New("writer failed")
 }
 
 // c06History runs one history on a new instance and compares every result with the fresh-instance result.
@@ -91,6 +113,17 @@ func c06History(s *core.Sub, cfg core.Cfg, hist []c06Op, fresh [][]byte) (valid 
 			doc, pan = cv.Parse([]byte(c06Docs[op.arg]))
 			trees = append(trees, doc)
 			treeDoc = append(treeDoc, op.arg)
+		case 'F', 'G':
+			// the result of a failed conversion is C14's business; here it only has to leave nothing behind
+			func() {
+				defer func() { _ = recover() }()
+				left := 0
+				if op.kind == 'G' {
+					left = 7
+				}
+				_ = cv.MD.Convert([]byte(c06Docs[op.arg]), &c06FailWriter{left})
+			}()
+			continue
 		case 'R':
 			if op.arg >= len(trees) {
 				return false // not a well-formed history
@@ -266,7 +299,7 @@ func runC06(r *core.Run) {
 			out, _, _ := core.NewConv(cfg).Convert([]byte(d))
 			fresh[i] = append([]byte{}, out...)
 		}
-		s := r.Sub("histories/"+cn, fmt.Sprintf("every sequence of ≤%d operations from {Convert(d), Parse(d) for %d leak-prone documents, Render(tree_i) for i<3} on one new Markdown instance under %s; every result compared with the same operation on a fresh instance; state = history (a correct implementation has a single abstract state); distinct = well-formed histories", depth, len(c06Docs), cn))
+		s := r.Sub("histories/"+cn, fmt.Sprintf("every sequence of ≤%d operations from {Convert(d), Parse(d) for %d leak-prone documents, Render(tree_i) for i<3, Convert(d) into a writer failing at byte 0 or 7 for d<6} on one new Markdown instance under %s; every result compared with the same operation on a fresh instance; state = history (a correct implementation has a single abstract state); distinct = well-formed histories", depth, len(c06Docs), cn))
 		s.Bound = fmt.Sprintf("depth=%d ops=%d", depth, len(ops))
 		// shard on the first operation
 		var total int64 = 0
